@@ -77,8 +77,8 @@ def run(ctx):
         schema = lvs.gen_schema(rng, with_signers=(si % 4 == 3))
         text = lvs.schema_text(schema)
         w = {'schema': text}
-        pre = lvs.Ref(schema, lvs.USER_FNS)
-        if sum(len(pre.alternatives(rn)) for rn in pre.defs) > 120 or pre.max_len() > 9:
+        tot_alts, max_len_ = lvs.alt_counts(schema)
+        if tot_alts > 120 or max_len_ > 9:
             ctx.event('schema-skipped-too-large')
             continue
         try:
